@@ -1,6 +1,6 @@
 // Sanitizer driver for the native torontonian / loop torontonian (C04, DESIGN 2.9).
 //
-//   tor_driver <vector file> [<first index>]
+//   tor_driver <vector file> [<first index> [<fork mode 0|1>]]
 //
 // vector file:  int32 count, then per vector
 //   int32 kernel   0 = torontonian_cpp, 1 = loop_torontonian_cpp
@@ -45,6 +45,7 @@ int main(int argc, char **argv)
     driver_setup_streams();
     Reader rd(argv[1]);
     long first = argc > 2 ? atol(argv[2]) : 0;
+    bool fork_mode = argc > 3 && atoi(argv[3]) == 1;
     long count = rd.i32();
     for (long idx = 0; idx < count; idx++)
     {
@@ -57,11 +58,12 @@ int main(int argc, char **argv)
             disp = rd.f64s(dim);
         if (idx < first)
             continue;
-        mark_begin(idx);
-        if (dtype == 0)
-            run_one<float>(idx, kernel, dim, entries, disp);
-        else
-            run_one<double>(idx, kernel, dim, entries, disp);
+        guarded(idx, fork_mode, [&]() {
+            if (dtype == 0)
+                run_one<float>(idx, kernel, dim, entries, disp);
+            else
+                run_one<double>(idx, kernel, dim, entries, disp);
+        });
     }
     printf("DONE %ld\n", count);
     return 0;
